@@ -239,12 +239,15 @@ func (cl *compiler) compileForStmt(stmt *ast.ForStmt) {
 		cl.emitJump(opJumpTrue, labelBody)
 		cl.bindLabel(labelBreak)
 
-	default:
+	case stmt.Cond == nil && stmt.Init == nil && stmt.Post == nil:
 		// `for { ... }`
 		cl.bindLabel(labelContinue)
 		cl.compileStmt(stmt.Body)
 		cl.emitJump(opJump, labelContinue)
 		cl.bindLabel(labelBreak)
+
+	default:
+		panic(cl.errorf(stmt, "can't compile for loops with init or post statements yet"))
 	}
 
 	cl.breakTarget = prevBreakTarget
